@@ -1086,7 +1086,7 @@ fn state_for(ns: usize, v: &[Trans]) -> Option<State> {
     for _ in 1..ns {
         states.push(State::new(enum_map! { _ => vec![] }));
     }
-    Machine::new(0, 0.0, 0, 0.0, states).ok()?;
+    let machine = Machine::new(0, 0.0, 0, 0.0, states).ok()?;
     // hand out the state through the different copy paths in rotation: a copy must carry exactly
     // the declared lists (a stale list on another event would show in the `novec` observation)
     static ROT: std::sync::atomic::AtomicUsize = std::sync::atomic::AtomicUsize::new(0);
@@ -1095,8 +1095,14 @@ fn state_for(ns: usize, v: &[Trans]) -> Option<State> {
         t[Event::NormalSent] = vec![Trans(0, 0.5)];
         State::new(t)
     };
-    Some(match ROT.fetch_add(1, std::sync::atomic::Ordering::Relaxed) % 4 {
+    Some(match ROT.fetch_add(1, std::sync::atomic::Ordering::Relaxed) % 5 {
         0 => st,
+        // through the machine string: whatever a state keeps beside its serialized fields (caches marked
+        // serde(skip), lazily built tables) has to be rebuilt by the parser
+        4 => match Machine::from_str(&machine.serialize()) {
+            Ok(m2) => m2.states.into_iter().next()?,
+            Err(_) => st,
+        },
         1 => st.clone(),
         2 => {
             let mut d = decoy();
